@@ -30,7 +30,7 @@ def convertEntries(entries):
     return result
 
 
-def getCollectionValue(collection, what):
+def getCollectionValue(collection, what, pos=None):
     if what is None:
         what = "values"  # same default as the for statement
     if collection.isList():
@@ -54,7 +54,9 @@ def getCollectionValue(collection, what):
         return [ValueString(ch) for ch in collection.value]
     else:
         raise CklRuntimeError(
-            ValueString("ERROR"), f"Cannot iterate over {collection.type()}"
+            ValueString("ERROR"),
+            f"Cannot iterate over {collection.type()}",
+            pos,
         )
 
 
@@ -1278,7 +1280,7 @@ class NodeListComprehension:
         result = ValueList()
         localEnv = environment.newEnv()
         lst = self.listExpr.evaluate(environment)
-        values = getCollectionValue(lst, self.what)
+        values = getCollectionValue(lst, self.what, self.pos)
         for listValue in values:
             localEnv.put(self.identifier, listValue)
             value = self.valueExpr.evaluate(localEnv)
@@ -1357,8 +1359,8 @@ class NodeListComprehensionParallel:
         localEnv = environment.newEnv()
         list1 = self.listExpr1.evaluate(environment)
         list2 = self.listExpr2.evaluate(environment)
-        values1 = getCollectionValue(list1, self.what1)
-        values2 = getCollectionValue(list2, self.what2)
+        values1 = getCollectionValue(list1, self.what1, self.pos)
+        values2 = getCollectionValue(list2, self.what2, self.pos)
         for i in range(max(len(values1), len(values2))):
             listValue1 = values1[i] if i < len(values1) else None
             listValue2 = values2[i] if i < len(values2) else None
@@ -1448,8 +1450,8 @@ class NodeListComprehensionProduct:
         localEnv = environment.newEnv()
         list1 = self.listExpr1.evaluate(environment)
         list2 = self.listExpr2.evaluate(environment)
-        values1 = getCollectionValue(list1, self.what1)
-        values2 = getCollectionValue(list2, self.what2)
+        values1 = getCollectionValue(list1, self.what1, self.pos)
+        values2 = getCollectionValue(list2, self.what2, self.pos)
         for listValue1 in values1:
             localEnv.put(self.identifier1, listValue1)
             for listValue2 in values2:
@@ -1581,7 +1583,7 @@ class NodeMapComprehension:
         result = ValueMap()
         localEnv = environment.newEnv()
         lst = self.listExpr.evaluate(environment)
-        values = getCollectionValue(lst, self.what)
+        values = getCollectionValue(lst, self.what, self.pos)
         for listValue in values:
             localEnv.put(self.identifier, listValue)
             key = self.keyExpr.evaluate(localEnv)
@@ -1938,7 +1940,7 @@ class NodeSetComprehension:
         result = ValueSet()
         localEnv = environment.newEnv()
         lst = self.listExpr.evaluate(environment)
-        values = getCollectionValue(lst, self.what)
+        values = getCollectionValue(lst, self.what, self.pos)
         for listValue in values:
             localEnv.put(self.identifier, listValue)
             value = self.valueExpr.evaluate(localEnv)
@@ -2008,8 +2010,8 @@ class NodeSetComprehensionParallel:
         localEnv = environment.newEnv()
         list1 = self.listExpr1.evaluate(environment)
         list2 = self.listExpr2.evaluate(environment)
-        values1 = getCollectionValue(list1, self.what1)
-        values2 = getCollectionValue(list2, self.what2)
+        values1 = getCollectionValue(list1, self.what1, self.pos)
+        values2 = getCollectionValue(list2, self.what2, self.pos)
         for i in range(max(len(values1), len(values2))):
             localEnv.put(
                 self.identifier1, values1[i] if i < len(values1) else NULL
@@ -2095,8 +2097,8 @@ class NodeSetComprehensionProduct:
         localEnv = environment.newEnv()
         list1 = self.listExpr1.evaluate(environment)
         list2 = self.listExpr2.evaluate(environment)
-        values1 = getCollectionValue(list1, self.what1)
-        values2 = getCollectionValue(list2, self.what2)
+        values1 = getCollectionValue(list1, self.what1, self.pos)
+        values2 = getCollectionValue(list2, self.what2, self.pos)
         for value1 in values1:
             localEnv.put(self.identifier1, value1)
             for value2 in values2:
